@@ -38,14 +38,17 @@ for p in props:
             thorough_cmd=f"./check {pid} --tier thorough",
             evidence_file=f"evidence/{pid}.json",
             replay_cmd_template=f"./check {pid} --replay {{path}}",
-            engine=meta.get("engine", "hypothesis-runner"),
+            engine=meta.get("engine") or (meta.get("engines") or ["hypothesis-runner"])[0],
             level_claimed=dict(
                 category=meta.get("level", "exploration"),
                 text=meta.get("level_text", "")
-                or "Generated-input search against an explicit oracle: no counterexample among the "
-                "generated cases within the stated size bounds; sub-checks: "
-                + ", ".join(s.name for s in mod.SUBCHECKS),
-                design_ref=f"DESIGN.md section 4, {pid}",
+                or ("Fault enumeration over generated files plus sampled data faults: "
+                    if meta.get("level") == "fault_enumeration"
+                    else "Exploration: generated-input search against an explicit oracle; holds on every "
+                    "generated case within the stated size bounds, exhaustive only on the named small scopes. ")
+                + " ".join(meta.get("rule", "").split())[:900]
+                + " Sub-checks: " + ", ".join(s.name for s in mod.SUBCHECKS if s.budget("quick") > 0) + ".",
+                design_ref=f"DESIGN.md section 4 ({pid}) and section 9 (as built)",
             ),
             level_note="; ".join(meta.get("assumptions", [])) or "reference model vf/model.py",
             technique=meta.get("technique", "property-based testing (Hypothesis) against a reference model"),
